@@ -19,7 +19,9 @@ class AugmentedFSSH(TrajectorySH):
     def __init__(self, *args: Any, **options: Any):
         TrajectorySH.__init__(self, *args, **options)
 
-        self.augmented_integration = options.get("augmented_integration", self.electronic_integration).lower()
+        # the moment integrators are called "exp" and "rk4": follow the electronic integrator by default
+        default_augmented = {"linear-rk4": "rk4"}.get(self.electronic_integration, self.electronic_integration)
+        self.augmented_integration = options.get("augmented_integration", default_augmented).lower()
 
         self.delR = np.zeros([self.model.ndim(), self.model.nstates(), self.model.nstates()],
                 dtype=np.complex128)
